@@ -57,7 +57,7 @@ try:
     d1 = sh([sys.executable, demo], env=env, cwd=wt)
     meta["demo_patched_exit"] = d1.returncode
     meta["demo_patched_tail"] = d1.stdout.strip().splitlines()[-3:]
-    env2 = dict(os.environ, NETCONAN_REPO=wt)
+    env2 = dict(os.environ, NETCONAN_REPO=wt, VERIF_NO_EVIDENCE="1")
     for c in checks:
         rr = sh(["/verif/check", c, "--tier", tier], env=env2, cwd="/verif")
         lines = rr.stdout.strip().splitlines()
